@@ -2,6 +2,7 @@ package rules
 
 import (
 	"go/ast"
+	"go/constant"
 	"go/token"
 	"go/types"
 	"sort"
@@ -423,6 +424,9 @@ func c09Locks(c *core.Ctx) (*c09limiter, []*c09fn) {
 					bad[h] = append(bad[h], badSite{call, "started as a goroutine (runs without the caller's lock)", nil})
 					continue
 				}
+				if c09freshLocal(g.f, sel.X) {
+					continue // the object was allocated in the caller and is not shared yet (constructor)
+				}
 				k := g.f.Render(sel.X)
 				for _, st := range g.res.At[call] {
 					w, r := st.Get("ev:w:"+k), st.Get("ev:r:"+k)
@@ -575,13 +579,7 @@ func c09Reserve(c *core.Ctx, lim *c09limiter, fns []*c09fn) {
 			continue
 		}
 		sig := fn.obj.Type().(*types.Signature)
-		if sig.Recv() == nil || !lim.isLimiter(sig.Recv().Type()) || sig.Results().Len() < 2 {
-			continue
-		}
-		if b, ok := sig.Results().At(0).Type().Underlying().(*types.Basic); !ok || b.Kind() != types.Bool {
-			continue
-		}
-		if sig.Results().At(1).Type().String() != "time.Duration" {
+		if sig.Recv() == nil || !lim.isLimiter(sig.Recv().Type()) || !c09verdictSig(sig) {
 			continue
 		}
 		rt := sig.Recv().Type()
@@ -599,10 +597,15 @@ func c09Reserve(c *core.Ctx, lim *c09limiter, fns []*c09fn) {
 
 func c09reserveOne(c *core.Ctx, lim *c09limiter, fn *c09fn, disabled string) {
 	f := fn.f
+	// the acquire function together with the same-package helpers it reaches (the read-modify-write
+	// may be split at the lock boundary: acquire() { lock; return rl.reserve(now, n) })
+	gs := reach(f, 2)
 	// values derived from the parameters (the requested count)
 	tainted := map[types.Object]bool{}
-	for _, p := range c09params(f) {
-		tainted[p] = true
+	for _, g := range gs {
+		for _, p := range c09params(g) {
+			tainted[p] = true
+		}
 	}
 	for changed := true; changed; {
 		changed = false
@@ -614,31 +617,33 @@ func c09reserveOne(c *core.Ctx, lim *c09limiter, fn *c09fn, disabled string) {
 				}
 			}
 		}
-		ast.Inspect(f.Body, func(n ast.Node) bool {
-			switch s := n.(type) {
-			case *ast.AssignStmt:
-				for _, r := range s.Rhs {
-					if c09mentions(f, r, tainted) {
-						for _, l := range s.Lhs {
-							taint(l)
+		for _, g := range gs {
+			ast.Inspect(g.Body, func(n ast.Node) bool {
+				switch s := n.(type) {
+				case *ast.AssignStmt:
+					for _, r := range s.Rhs {
+						if c09mentions(f, r, tainted) {
+							for _, l := range s.Lhs {
+								taint(l)
+							}
 						}
 					}
-				}
-			case *ast.ValueSpec:
-				for _, r := range s.Values {
-					if c09mentions(f, r, tainted) {
-						for _, l := range s.Names {
-							taint(l)
+				case *ast.ValueSpec:
+					for _, r := range s.Values {
+						if c09mentions(f, r, tainted) {
+							for _, l := range s.Names {
+								taint(l)
+							}
 						}
 					}
+				case *ast.RangeStmt:
+					if c09mentions(f, s.X, tainted) && s.Value != nil {
+						taint(s.Value)
+					}
 				}
-			case *ast.RangeStmt:
-				if c09mentions(f, s.X, tainted) && s.Value != nil {
-					taint(s.Value)
-				}
-			}
-			return true
-		})
+				return true
+			})
+		}
 	}
 	// reservation stores: tokens (or an element) := something derived from the count
 	stores := map[ast.Node]bool{}
@@ -646,65 +651,88 @@ func c09reserveOne(c *core.Ctx, lim *c09limiter, fn *c09fn, disabled string) {
 	// write-backs of the (cycle, tokens) pair, whatever is stored
 	tokStores, cycStores := map[ast.Node]bool{}, map[ast.Node]bool{}
 	tokLoops, cycLoops := map[ast.Stmt]bool{}, map[ast.Stmt]bool{}
-	ast.Inspect(f.Body, func(n ast.Node) bool {
-		if _, isLit := n.(*ast.FuncLit); isLit {
-			return false
-		}
-		var targets []ast.Expr
-		switch s := n.(type) {
-		case *ast.AssignStmt:
-			targets = s.Lhs
-		case *ast.IncDecStmt:
-			targets = []ast.Expr{s.X}
-		}
-		for _, l := range targets {
-			sel := c09storeTarget(l)
-			if sel == nil {
-				continue
+	holds := map[*ast.BlockStmt]bool{} // helpers that store into the (cycle, tokens) pair
+	for _, g := range gs {
+		gBody := g.Body
+		ast.Inspect(g.Body, func(n ast.Node) bool {
+			if _, isLit := n.(*ast.FuncLit); isLit {
+				return false
 			}
-			fld := c09fieldOf(f, sel)
-			ls := enclosingLoops(f.Body, n)
-			switch {
-			case lim.tokens[fld]:
-				tokStores[n] = true
-				if len(ls) > 0 {
-					tokLoops[ls[0]] = true
+			var targets []ast.Expr
+			switch s := n.(type) {
+			case *ast.AssignStmt:
+				targets = s.Lhs
+			case *ast.IncDecStmt:
+				targets = []ast.Expr{s.X}
+			}
+			for _, l := range targets {
+				sel := c09storeTarget(l)
+				if sel == nil {
+					continue
 				}
-			case lim.cycle[fld]:
-				cycStores[n] = true
-				if len(ls) > 0 {
-					cycLoops[ls[0]] = true
-				}
-			}
-		}
-		as, ok := n.(*ast.AssignStmt)
-		if !ok {
-			return true
-		}
-		for _, l := range as.Lhs {
-			sel := c09storeTarget(l)
-			if sel == nil || !lim.tokens[c09fieldOf(f, sel)] {
-				continue
-			}
-			for _, r := range as.Rhs {
-				if c09mentions(f, r, tainted) {
-					stores[as] = true
-					if ls := enclosingLoops(f.Body, as); len(ls) > 0 {
-						loops[ls[0]] = true
+				fld := c09fieldOf(f, sel)
+				ls := enclosingLoops(gBody, n)
+				switch {
+				case lim.tokens[fld]:
+					holds[gBody] = true
+					tokStores[n] = true
+					if len(ls) > 0 {
+						tokLoops[ls[0]] = true
+					}
+				case lim.cycle[fld]:
+					holds[gBody] = true
+					cycStores[n] = true
+					if len(ls) > 0 {
+						cycLoops[ls[0]] = true
 					}
 				}
 			}
-		}
-		return true
-	})
+			as, ok := n.(*ast.AssignStmt)
+			if !ok {
+				return true
+			}
+			for _, l := range as.Lhs {
+				sel := c09storeTarget(l)
+				if sel == nil || !lim.tokens[c09fieldOf(f, sel)] {
+					continue
+				}
+				for _, r := range as.Rhs {
+					if c09mentions(f, r, tainted) {
+						stores[as] = true
+						if ls := enclosingLoops(gBody, as); len(ls) > 0 {
+							loops[ls[0]] = true
+						}
+					}
+				}
+			}
+			return true
+		})
+	}
 	// facts "state == StateDisabled"
 	disabledKeys := map[string]bool{}
-	ast.Inspect(f.Body, func(n ast.Node) bool {
-		if sel, ok := n.(*ast.SelectorExpr); ok && lim.state[c09fieldOf(f, sel)] {
-			disabledKeys["eq:"+f.Render(sel)+"=="+disabled] = true
+	for _, g := range gs {
+		ast.Inspect(g.Body, func(n ast.Node) bool {
+			if sel, ok := n.(*ast.SelectorExpr); ok && lim.state[c09fieldOf(f, sel)] {
+				disabledKeys["eq:"+f.Render(sel)+"=="+disabled] = true
+			}
+			return true
+		})
+	}
+	// helpers interpreted in place: those holding a store of the pair, and those whose result is
+	// returned as the verdict
+	inlineWanted := func(call *ast.CallExpr, callee *types.Func) bool {
+		fd := declOf(f.Pkg, callee)
+		if fd == nil {
+			return false
 		}
-		return true
-	})
+		if holds[fd.Body] {
+			return true
+		}
+		sig := callee.Type().(*types.Signature)
+		return sig.Recv() != nil && lim.isLimiter(sig.Recv().Type()) && c09verdictSig(sig)
+	}
+	inl := inlineSamePkg(f)
+	named := c09resultsOf(f)
 	const (
 		reserved = "ev:reserved"
 		tokEv    = "ev:tokensStored"
@@ -712,7 +740,14 @@ func c09reserveOne(c *core.Ctx, lim *c09limiter, fn *c09fn, disabled string) {
 	)
 	res := analyze(c, f, flow.Config{
 		NoHavoc: true,
+		Inline: func(call *ast.CallExpr, callee *types.Func) *flow.Func {
+			if callee == nil || !inlineWanted(call, callee) {
+				return nil
+			}
+			return inl(call, callee)
+		},
 		OnNode: func(st *flow.State, n ast.Node) {
+			named.onNode(st, n)
 			if stores[n] {
 				st.Set(reserved, flow.True)
 			}
@@ -754,6 +789,11 @@ func c09reserveOne(c *core.Ctx, lim *c09limiter, fn *c09fn, disabled string) {
 		// leave half of the pair updated
 		tok, cyc := ex.State.Is(tokEv, flow.True), ex.State.Is(cycEv, flow.True)
 		verdict := c09boolResult(f, ex, 0)
+		if v, known := named.constant(ex, 0); known && v.Kind() == constant.Bool {
+			verdict = c09val(constant.BoolVal(v))
+		} else if v, known := c09structVerdict(f, named.expr(ex, 0)); known {
+			verdict = c09val(v)
+		}
 		if badPair == nil {
 			switch {
 			case cyc && !tok && verdict == flow.False:
@@ -1286,4 +1326,76 @@ func c09clockReads(f *flow.Func, lim *c09limiter, fn *c09fn) (map[*ast.CallExpr]
 		}
 	}
 	return out, name
+}
+
+// c09verdictSig: the result list of an acquire function — (bool, time.Duration, ...) or one struct
+// value with exactly one bool field (the verdict) and a time.Duration field (the wait).
+func c09verdictSig(sig *types.Signature) bool {
+	rs := sig.Results()
+	if rs.Len() >= 2 {
+		b, ok := rs.At(0).Type().Underlying().(*types.Basic)
+		return ok && b.Kind() == types.Bool && rs.At(1).Type().String() == "time.Duration"
+	}
+	if rs.Len() != 1 {
+		return false
+	}
+	st, ok := rs.At(0).Type().Underlying().(*types.Struct)
+	if !ok {
+		return false
+	}
+	bools, durs := 0, 0
+	for i := 0; i < st.NumFields(); i++ {
+		if b, ok := st.Field(i).Type().Underlying().(*types.Basic); ok && b.Kind() == types.Bool {
+			bools++
+		}
+		if st.Field(i).Type().String() == "time.Duration" {
+			durs++
+		}
+	}
+	return bools == 1 && durs >= 1
+}
+
+// c09structVerdict reads the verdict out of a returned struct literal `permission{granted: true}`
+// (an omitted bool field is false).
+func c09structVerdict(f *flow.Func, e ast.Expr) (bool, bool) {
+	if e == nil {
+		return false, false
+	}
+	if u, ok := ast.Unparen(e).(*ast.UnaryExpr); ok && u.Op == token.AND {
+		e = u.X
+	}
+	cl, ok := ast.Unparen(e).(*ast.CompositeLit)
+	if !ok {
+		return false, false
+	}
+	tv, ok := f.Info.Types[cl]
+	if !ok || tv.Type == nil {
+		return false, false
+	}
+	st, ok := tv.Type.Underlying().(*types.Struct)
+	if !ok {
+		return false, false
+	}
+	for i, el := range cl.Elts {
+		var fld *types.Var
+		val := el
+		if kv, ok := el.(*ast.KeyValueExpr); ok {
+			if k, ok := kv.Key.(*ast.Ident); ok {
+				fld, _ = f.Info.Uses[k].(*types.Var)
+			}
+			val = kv.Value
+		} else if i < st.NumFields() {
+			fld = st.Field(i)
+		}
+		if fld == nil {
+			continue
+		}
+		if b, ok := fld.Type().Underlying().(*types.Basic); ok && b.Kind() == types.Bool {
+			if v, ok := f.Info.Types[val]; ok && v.Value != nil && v.Value.Kind() == constant.Bool {
+				return constant.BoolVal(v.Value), true
+			}
+			return false, false
+		}
+	}
+	return false, true
 }
